@@ -64,7 +64,7 @@ class MethodIO:
 
 class TH:
     def __init__(self, dut, provided, required=None, capture=(), extra_inputs=(), extra_outputs=(),
-                 extra_submodules=None, manager=None, capture_funcs=("elaborate",)):
+                 extra_submodules=None, manager=None, capture_funcs=("elaborate",), dependency_manager=None):
         """provided: {name: Method of the dut}; required: {name: Adapter whose iface the dut calls}."""
         required = required or {}
         self.dut = dut
@@ -72,6 +72,8 @@ class TH:
         kwargs = {}
         if manager is not None:
             kwargs["transaction_manager"] = manager
+        if dependency_manager is not None:
+            kwargs["dependency_manager"] = dependency_manager
         self.top = TransactronContextElaboratable(self.top_inner, **kwargs)
         # adapters are created during elaboration, so the port list is computed lazily
         inputs, outputs = [], []
